@@ -101,8 +101,8 @@ def main():
              'kind_free_text': 'virtual-time event loop; bounded-exhaustive enumeration / BFS of timed programs on the real code'},
             {'name': 'tx', 'path': 'mc/tx.py', 'serves_properties': [p for p in ALL if p in CHECKS and CHECKS[p][0] == 'tx'],
              'kind_free_text': 'stateless thread-interleaving explorer (line-granular, iterative preemption bounding) on the real code'},
-            {'name': 'sq', 'path': 'mc/sq.py', 'serves_properties': [p for p in ALL if p in CHECKS and CHECKS[p][0] == 'sq'],
-             'kind_free_text': 'operation-sequence BFS against a reference model with fault injection'},
+            {'name': 'sq', 'path': 'props/c12.py', 'serves_properties': [p for p in ALL if p in CHECKS and CHECKS[p][0] == 'sq'],
+             'kind_free_text': 'sequential engine: operation-sequence BFS to a fixpoint against a reference model with fault injection (props/c12.py + mc/flshim.py); exhaustive pull-interleaving DFS (props/c18.py); grammar-bounded chained histories (props/c19.py)'},
             {'name': 'px', 'path': 'mc/px.py', 'serves_properties': [p for p in ALL if p in CHECKS and CHECKS[p][0] == 'px'],
              'kind_free_text': 'process-level explorer: forked children stepped over pipes, SIGKILL as scheduler action'},
         ],
